@@ -302,3 +302,67 @@ SIM_SCENARIO(scen_c04c, "c04c", "C04", 8000000, 40000) {
     for (auto& n : tree) if (!n.ephemeral) { sim::tso_unregister(n.ctx, sizeof(*n.ctx)); delete n.ctx; }
     L = nullptr;
 }
+
+// c04d — contexts whose binding thread has left: a thread binds heap contexts M1 (and M2 beneath it) under `src` by
+// running nested one-chunk loops, then exits, so the list those contexts are registered in has no owner any more.
+// Order "descendant first": another thread binds a fresh context K beneath the lowest of them, and while K's body runs
+// somebody cancels `src` (or M1).  Order "cancel first": the cancel call is made while nothing beneath the orphaned
+// contexts sits in a live thread's list, K is bound afterwards.  When the cancel call has returned (and K is bound), every
+// context bound beneath the target - K, and the intermediate ones whose thread is gone - is cancelled, tasks of their
+// groups see it, and nothing above the target is.
+SIM_SCENARIO(scen_c04d, "c04d", "C04", 4000000, 20000) {
+    hx::Desc d;
+    static const int Ps[] = {2, 3, 4};
+    sim::g_cfg.P = sim::draw_of(Ps, "P");
+    bool deep = sim::draw_bool("deep"), sibling = sim::draw_bool("sibling"), cancel_mid = deep && sim::draw(3, "cancel_m1") == 0;
+    bool cancel_first = sim::draw(4, "order") == 0;
+    int who = cancel_first ? 2 : (int)sim::draw(2, "canceller");        // 0: the body of K cancels; 1: a foreign thread, while K's body runs; 2: the main thread, before K exists
+    int pts = (int)sim::draw(12, "points");
+    const char* tagtxt = cancel_first ? " [no live-listed descendant at cancel time]" : "";
+    d.add(hx::fmt("orphaned context list: P=%d chain src>M1%s>K, binder thread exits before K is bound; cancel(%s) by %s; sibling task in M1's group=%d points=%d%s", sim::g_cfg.P,
+                  deep ? ">M2" : "", cancel_mid ? "M1" : "src", who == 0 ? "K's body" : who == 1 ? "a foreign thread while K's body runs" : "the main thread before K is bound", (int)sibling, pts, tagtxt));
+    d.publish();
+    std::unique_ptr<tbb::task_group_context> src(new tbb::task_group_context), m1(new tbb::task_group_context), m2(new tbb::task_group_context);
+    int binder = sim::spawn([&] {
+        tbb::parallel_for(0, 1, [&](int) {
+            tbb::parallel_for(0, 1, [&](int) {
+                if (deep) tbb::parallel_for(0, 1, [&](int) { sim::upoint(); }, *m2);      // binds M2 to M1
+                sim::upoint();
+            }, *m1);                                                                          // binds M1 to src
+        }, *src);
+    }, "binder");
+    sim::join(binder);
+    for (int i = 0; i < pts; ++i) sim::upoint();
+    tbb::task_group_context& lowest = deep ? *m2 : *m1;
+    tbb::task_group_context& target = cancel_mid ? *m1 : *src;
+    bool cancel_won = false, k_cancelled = false, k_ran = false, sib_saw = false;
+    sim::event sib_started, k_started, cancel_done;
+    int sib = -1;
+    if (sibling) sib = sim::spawn([&] {
+        tbb::parallel_for(0, 1, [&](int) { sib_started.signal(); cancel_done.wait(); sib_saw = tbb::is_current_task_group_canceling(); }, *m1);
+    }, "sibling");
+    if (sibling) sib_started.wait();
+    int foreign = -1;
+    if (who == 1) foreign = sim::spawn([&] { k_started.wait(); cancel_won = target.cancel_group_execution(); cancel_done.signal(); }, "canceller");
+    if (who == 2) { cancel_won = target.cancel_group_execution(); cancel_done.signal(); }
+    tbb::parallel_for(0, 1, [&](int) {
+        tbb::task_group_context k;
+        tbb::parallel_for(0, 1, [&](int) {
+            k_ran = true; k_started.signal();
+            if (who == 0) { cancel_won = target.cancel_group_execution(); cancel_done.signal(); }
+            else cancel_done.wait();
+        }, k);                                                                                // binds K to the lowest intermediate context
+        k_cancelled = k.is_group_execution_cancelled();
+    }, lowest);
+    if (foreign >= 0) sim::join(foreign);
+    if (sib >= 0) sim::join(sib);
+    SIM_CHECK(cancel_done.is_set(), "tool:harness", "the cancel call was not made");
+    SIM_CHECK(cancel_won, "oracle:cancel-result", "the only cancel call on the target did not return true");
+    SIM_CHECK(target.is_group_execution_cancelled(), "oracle:cancel-missed", "the cancelled context itself is not cancelled");
+    SIM_CHECK(m1->is_group_execution_cancelled(), "oracle:cancel-missed", "M1 (bound beneath src by a thread that has exited) is not cancelled after cancel(%s) returned%s", cancel_mid ? "M1" : "src", tagtxt);
+    if (deep) SIM_CHECK(m2->is_group_execution_cancelled(), "oracle:cancel-missed", "M2 (bound beneath M1 by a thread that has exited) is not cancelled after the cancel call returned%s", tagtxt);
+    if (cancel_first) SIM_CHECK(!k_ran, "oracle:cancel-missed", "work of a context bound beneath the cancelled one after the cancel call had returned was carried out%s", tagtxt);
+    else SIM_CHECK(k_cancelled, "oracle:cancel-missed", "K, bound beneath the cancelled context after its intermediate contexts' thread had exited, is not cancelled although the cancel call has returned");
+    if (cancel_mid) SIM_CHECK(!src->is_group_execution_cancelled(), "oracle:cancel-spurious", "src is cancelled although only M1 beneath it was");
+    if (sibling) SIM_CHECK(sib_saw, "oracle:cancel-missed", "a task of M1's group, running when the cancel call was made, does not see the cancellation after the call returned%s", tagtxt);
+}
